@@ -1,15 +1,1 @@
 import Pfl
-#print axioms Pfl.CFG.mk'_wf
-#print axioms Pfl.CFG.mk'_prods
-#print axioms Pfl.CFG.removeUseless_lang
-#print axioms Pfl.CFG.removeUseless_useful
-#print axioms Pfl.CFG.removeEpsilon_lang
-#print axioms Pfl.CFG.removeEpsilon_noEps
-#print axioms Pfl.CFG.elimUnit_lang
-#print axioms Pfl.CFG.elimUnit_noUnit
-#print axioms Pfl.CFG.toNormalForm_lang
-#print axioms Pfl.CFG.toNormalForm_isNormalForm
-#print axioms Pfl.CFG.cfgMem_iff
-#print axioms Pfl.CFG.mem_langUpTo_iff
-#print axioms Pfl.CFG.mem_generating_iff
-#print axioms Pfl.CFG.mem_reachable_iff
